@@ -338,6 +338,11 @@ func (env *SpecEnv) specEq(l, r Val, at SExpr) Term {
 		if ok && a.To == b.To {
 			return Eq(a.Nil, b.Nil)
 		}
+		if ok && a.To.Typ != nil && b.To.Typ != nil && in.isValuelike(a.To.Typ) && in.isValuelike(b.To.Typ) {
+			// valuelike pointers compare by (nil flag, pointee value)
+			pt := types.NewPointer(a.To.Typ)
+			return Eq(in.freeze(a, pt, env.st, env.f), in.freeze(b, pt, env.st, env.f))
+		}
 		if ok {
 			return Eq(in.refOf(a), in.refOf(b))
 		}
